@@ -44,7 +44,74 @@ def forged_file(rng, name: str, kind: str | None = None) -> dict:
                       "first_decode_time": rng.choice([0, 0, 0, 1234])}}
 
 
+def burst_op(rng, names: list[str], fnames: list[str]) -> dict:
+    """One management operation of a burst (the objects it names usually exist: the setup creates them)."""
+    r = rng.random()
+    w = rng.randrange(3)
+    if r < 0.18:
+        fn = rng.choice(fnames[:3])
+        return {"op": "upload", "which": w, "file": forged_file(rng, fn)}
+    if r < 0.28:
+        return {"op": "delete_media", "which_file": rng.randrange(4), "how": "ajax"}
+    if r < 0.36:
+        return {"op": "index", "which_file": rng.randrange(4)}
+    if r < 0.44:
+        return {"op": "edit_media", "which_file": rng.randrange(4), "track_id": rng.choice([1, 2, 3]), "lang": "eng"}
+    if r < 0.54:
+        return {"op": "add_stream", "dir": rng.choice(names), "title": f"t{rng.randrange(100)}"}
+    if r < 0.64:
+        return {"op": "edit_stream", "which": w, "title": f"title {rng.randrange(100)}",
+                "timing_ref": rng.choice(["first", "first", "none"]), "which_file": rng.randrange(3)}
+    if r < 0.72:
+        return {"op": "delete_stream", "which": w, "how": "ajax"}
+    if r < 0.80:
+        return {"op": "add_key", "kid": rng.choice(["%032x" % rng.getrandbits(128), "11" * 16]),
+                "key": "%032x" % rng.getrandbits(128)}
+    if r < 0.84:
+        return {"op": rng.choice(["delete_key", "edit_key"]), "which": w, "key": "%032x" % rng.getrandbits(128)}
+    if r < 0.92:
+        periods = [{"which": rng.randrange(3), "pid": rng.choice(["p1", "p2"]), "start": "PT0S",
+                    "duration": rng.choice(["", "PT2S"])} for _ in range(rng.randrange(1, 3))]
+        return {"op": rng.choice(["add_mps", "add_mps", "edit_mps"]), "name": rng.choice(["mone", "mtwo"]),
+                "which": w, "title": f"multi {rng.randrange(100)}", "periods": periods}
+    if r < 0.96:
+        return {"op": "delete_mps", "which": w}
+    return {"op": "set_defaults", "which": w, "fields": rng.choice([{"depth": "77"}, {"mup": "5"}])}
+
+
+def generate_burst(seed: int, tier: str, index: int) -> dict:
+    """Second stage: management operations served concurrently under the pre-emptive scheduler."""
+    rng = base.rng_for(seed, "gen-burst")
+    t0 = simclock.SimClock.parse(rng.choice(mc.T0_CHOICES))
+    names = ["alpha", "beta", "fza"]
+    fnames = ["va", "vb", "aa", "fza_v1"]
+    script = [{"op": "auth"}]
+    if rng.random() < 0.7:
+        script.append({"op": "add_stream", "dir": "alpha", "title": "A"})
+    for _ in range(rng.randrange(0, 3)):
+        script.append({"op": "upload", "which": rng.randrange(2), "file": forged_file(rng, rng.choice(fnames[:3]))})
+        script.append({"op": "index", "which_file": -1})
+    if rng.random() < 0.4:
+        script.append({"op": "add_mps", "name": "mone", "title": "multi", "periods": [
+            {"which": 0, "pid": "p1", "start": "PT0S", "duration": "PT2S"}]})
+    for _ in range(rng.choice([1, 1, 2])):
+        n = rng.choice([2, 2, 2, 3])
+        script.append({"op": "burst", "requests": [burst_op(rng, names, fnames) for _ in range(n)],
+                       "sched": rng.getrandbits(32), "same_token": rng.random() < 0.15})
+        if rng.random() < 0.3:
+            script.append({"op": "probe", "n": 2})
+    script.append({"op": "probe", "n": 2})
+    script.append({"op": "readback"})
+    mgr = {"id": "mgr", "kind": "burster", "role": "media", "prng": rng.getrandbits(32),
+           "latency": {"min_us": 1000, "jitter_us": 0}, "script": script}
+    return {"property": ID, "seed": seed, "index": index, "tier": tier, "hashseed": index % base.HASHSEEDS,
+            "t0_us": t0, "sched_seed": rng.getrandbits(32), "family": "burst",
+            "world": {"template": rng.choice(["small", "small", "empty"])}, "actors": [mgr]}
+
+
 def generate(seed: int, tier: str, index: int) -> dict:
+    if index % 4 == 3:
+        return generate_burst(seed, tier, index)
     rng = base.rng_for(seed, "gen")
     t0 = simclock.SimClock.parse(rng.choice(mc.T0_CHOICES))
     names = ["alpha", "beta", "fza", "gamma9"]
@@ -278,6 +345,30 @@ class Oracle:
                 sim.violate("deletion-removed-unowned", f"{opname}/{t}",
                             f"{opname} removed rows it does not own from {t}: {str(extra)[:400]}; {msg.method} {msg.url}")
 
+    # -- second stage: a burst of concurrent management requests
+    def on_burst(self, actor, st: dict, reqs: list[dict], outcome: dict) -> None:
+        sim = self.sim
+        ops = "+".join(sorted(r["recipe"]["op"] for r in reqs)) + ("/same-token" if st.get("same_token") else "")
+        sim.check("c17-burst")
+        if outcome.get("interleaved"):
+            sim.world.probe("c17.burst-interleaved")
+        for rule, detail in referential_violations(outcome["state"], self.world.blob_dir):
+            key = f"{rule}|{detail}"
+            if key in self.known_bad:
+                continue
+            self.known_bad.add(key)
+            sim.violate(rule, f"after=burst:{ops}", f"{detail}; after the concurrent requests "
+                                                     f"{[r['method'] + ' ' + r['url'][:80] for r in reqs]}")
+        # what the concurrent requests answered (5xx: C16's subject) and whether the outcome equals some sequential
+        # order (no listed property states it in general; C15 judges the CSRF part) are counted, not judged here
+        for i, resp in enumerate(outcome["results"]):
+            if resp.status >= 500 and i not in outcome["aborted"]:
+                sim.world.probe("c17.burst-5xx")
+        if outcome.get("linearizable") is False:
+            sim.world.probe("c17.burst-not-linearizable")
+        elif outcome.get("linearizable"):
+            sim.world.probe("c17.burst-linearizable")
+
     # -- observers of the manager's probes
     def on_probe(self, actor, kind: str, name: str, tmpl: str, mode: str, url: str, resp: Response) -> None:
         sim = self.sim
@@ -328,17 +419,24 @@ def execute(spec: dict) -> dict:
     world, info = worlds.instantiate("run", template, secrets_seed=base.sub_seed(spec["seed"], "secrets"))
     try:
         simclock.CLOCK.us = spec["t0_us"]
+        if spec.get("family") == "burst":
+            # second stage: every connection parks at each statement while a burst is running
+            world.stop()
+            world.preemptive = True
+            world.start()
         sim = Sim(world, spec["sched_seed"])
         oracle = Oracle(sim)
         sim.before_delivery = oracle.before_delivery
         sim.after_delivery = oracle.after_delivery
         actors = []
         for a in spec["actors"]:
-            m = Manager(sim, a)
+            from ..actors.burster import Burster
+            m = (Burster if a["kind"] == "burster" else Manager)(sim, a)
             m.observers = [oracle]
             actors.append(m)
         sim.run(actors)
         return base.outcome(ID, spec, sim, world, nontrivial=bool(sim.checks.get("c17-referential", 0) > 8),
-                            extra={"sim_seconds": (simclock.CLOCK.us - spec["t0_us"]) / 1e6})
+                            extra={"sim_seconds": (simclock.CLOCK.us - spec["t0_us"]) / 1e6,
+                                   "counters": {f"family.{spec.get('family', 'atomic')}": 1}})
     finally:
         world.destroy()
